@@ -9,6 +9,9 @@ pub fn all() -> Vec<(&'static str, fn())> {
         ("c01_ap_generation_u32_max", c01_ap_generation_u32_max),
         ("c01_ap_generation_huge_alloc", c01_ap_generation_huge_alloc),
         ("c01_executed_call_with_unresolved_args", c01_executed_call_with_unresolved_args),
+        ("c01_trace_cid_missing_from_store_signed", c01_trace_cid_missing_from_store_signed),
+        ("c01_raw_value_not_json", c01_raw_value_not_json),
+        ("c01_scalar_and_iterator_same_name", c01_scalar_and_iterator_same_name),
     ]
 }
 
@@ -144,4 +147,70 @@ fn c01_executed_call_with_unresolved_args() {
     let cur = data(vec![ExecutedState::par(1, 0), sent_by("other"), unused], <_>::default(), 0);
     let o = run(air, vec![], cur, PEER, no_call_results());
     report(&o);
+}
+
+/// (build with --features signatures) DataVerifier::new looks up every trace CID in the CID stores with
+/// expect(); CidInfo::verify only checks the stores themselves, not that the trace's CIDs are present.
+fn c01_trace_cid_missing_from_store_signed() {
+    let air = r#"(call "other" ("s" "f") [] r)"#;
+    let state = ExecutedState::Call(CallResult::executed_scalar(air_interpreter_cid::CID::new(
+        "bagaaihraaaaaaaaaaaaaaaaaaaaaaaaaaaaaaaaaaaaaaaaaaaaaaaaaaaaa",
+    )));
+    let cur = data(vec![state], <_>::default(), 0);
+    let o = run(air, vec![], cur, PEER, no_call_results());
+    report(&o);
+}
+
+/// RawValue::get_value parses the stored text lazily with expect(); the CID store verification only
+/// hashes the text. A correctly hashed non-JSON value in the value store panics on first use.
+fn c01_raw_value_not_json() {
+    use air_interpreter_cid::CID;
+    let air = r#"(call "other" ("s" "f") [] r)"#;
+    let raw: RawValue = serde_json::from_str("\"{not json\"").unwrap();
+    let mut values = CidTracker::<RawValue>::new();
+    let value_cid = values.track_raw_value(raw);
+    let mut tetraplets = CidTracker::<polyplets::SecurityTetraplet>::new();
+    let tetraplet_cid = tetraplets
+        .track_value(polyplets::SecurityTetraplet::new("other", "s", "f", ""))
+        .unwrap();
+    // argument hash of the empty argument list, as the interpreter computes it
+    let args: Vec<air_interpreter_value::JValue> = vec![];
+    let argument_hash = air_interpreter_cid::value_to_json_cid(&args).unwrap().get_inner();
+    let mut aggs = CidTracker::<ServiceResultCidAggregate>::new();
+    let agg_cid: CID<ServiceResultCidAggregate> = aggs
+        .track_value(ServiceResultCidAggregate { value_cid, argument_hash, tetraplet_cid })
+        .unwrap();
+    let cid_info = CidInfo {
+        value_store: values.into(),
+        tetraplet_store: tetraplets.into(),
+        canon_element_store: <_>::default(),
+        canon_result_store: <_>::default(),
+        service_result_store: aggs.into(),
+    };
+    let cur = data(vec![ExecutedState::Call(CallResult::executed_scalar(agg_cid))], cid_info, 0);
+    let o = run(air, vec![], cur, PEER, no_call_results());
+    report(&o);
+}
+
+/// Scalars::get_value has unreachable!() for a name that is both a scalar and a fold iterator
+/// ("checked on the parsing stage"): try the scripts that could produce such a clash.
+fn c01_scalar_and_iterator_same_name() {
+    let scripts = [
+        r#"(seq (ap 1 x) (seq (ap 1 $s) (fold $s x (seq (call "p" ("s" "f") [x]) (next x)))))"#,
+        r#"(seq (ap 1 $s) (fold $s x (seq (ap 1 x) (seq (call "p" ("s" "f") [x]) (next x)))))"#,
+        r#"(seq (ap 1 $s) (fold $s x (seq (new x (seq (ap 1 x) (call "p" ("s" "f") [x]))) (next x))))"#,
+        r#"(seq (ap 1 $s) (seq (fold $s x (seq (null) (next x))) (seq (ap 1 x) (call "p" ("s" "f") [x]))))"#,
+        r#"(seq (ap 1 $s) (fold $s x (seq (fold $s x (seq (call "p" ("s" "f") [x]) (next x))) (next x))))"#,
+        r#"(seq (ap 1 $s) (new x (fold $s x (seq (call "p" ("s" "f") [x]) (next x)))))"#,
+        r#"(seq (ap 1 $s) (new x (seq (ap 2 x) (fold $s x (seq (call "p" ("s" "f") [x]) (next x))))))"#,
+        r#"(seq (ap 1 $s) (fold $s x (seq (call "A" ("s" "f") [] x) (next x))))"#,
+        r#"(seq (ap 1 $s) (fold $s x (seq (canon "A" $s #x) (next x))))"#,
+        r#"(seq (ap 1 $s) (fold $s x (seq (xor (ap 1 x) (null)) (seq (call "p" ("s" "f") [x]) (next x)))))"#,
+        r#"(seq (ap 1 $s) (seq (par (ap 1 x) (null)) (fold $s x (seq (call "p" ("s" "f") [x]) (next x)))))"#,
+    ];
+    for s in scripts {
+        let o = run(s, vec![], vec![], "A", no_call_results());
+        print!("{s}\n   ");
+        report(&o);
+    }
 }
